@@ -1,2 +1,75 @@
-(* C12 property theorems: statements only; every proof is [exact lemma]. (under construction) *)
-From Gv Require Import C12.Model C12.Spec.
+(* C12 property theorems: statements only; every proof is [exact lemma].
+   Model: Gv.C12.Model (LTS of the subscription half of resolve.go, repaired code = variant [fixed]);
+   [run fixed flt wresf ev_bad hbfail init acts = Some st] ranges over ALL action lists the LTS accepts
+   (all histories, all interleavings at the granularity of DESIGN.md Appendix A, unbounded), for all
+   oracles: filter outcome, write/flush outcome, failing payloads, failing heartbeats. *)
+From Gv Require Import C12.Model C12.Spec C12.ProofsBase C12.ProofsC12 C12.ProofsDeliv C12.ProofsFinal C12.Witness.
+From Coq Require Import List Bool Arith PeanoNat.
+Import ListNotations.
+
+(* no writer call of any kind after the subscriber's completed channel was closed *)
+Theorem c12_no_write_after_completed :
+  forall flt wresf ev_bad hbfail acts st,
+    run fixed flt wresf ev_bad hbfail init acts = Some st -> no_write_after_completed (chron st).
+Proof. exact final_no_write_after_completed. Qed.
+Print Assumptions c12_no_write_after_completed.
+
+(* completed is closed at most once per subscriber (a second close would panic) *)
+Theorem c12_completed_once :
+  forall flt wresf ev_bad hbfail acts st,
+    run fixed flt wresf ev_bad hbfail init acts = Some st -> completed_once (chron st).
+Proof. exact final_completed_once. Qed.
+Print Assumptions c12_completed_once.
+
+(* writes_exclusive: a transition that adds a writer call of subscriber s to the log executes an
+   instruction that is a writeMu region of s ([w_region]: writeError, the Write/Flush region of
+   executeSubscriptionUpdate, complete()/error(), sendHeartbeat); a region is ONE transition of the
+   LTS, so two regions of the same subscriber never overlap -- this is what mutual exclusion of
+   writer calls means in the model (instruction-level overlap is outside it, see DESIGN.md section 8). *)
+Theorem c12_writes_exclusive :
+  forall flt wresf ev_bad hbfail acts st th x st' s,
+    run fixed flt wresf ev_bad hbfail init acts = Some st ->
+    step fixed flt wresf ev_bad hbfail st (AStep th x) = Some st' ->
+    nw s (log st') <> nw s (log st) ->
+    exists i rest, lookup_thr th (threads st) = Some (i :: rest) /\ w_region i = Some s.
+Proof. exact final_writes_exclusive. Qed.
+Print Assumptions c12_writes_exclusive.
+
+(* delivery_order: [acc s] = the events accepted for s (logged at the trigger.mu filter snapshot: s was
+   registered on the trigger, its ctx live, its filter passed, payload well-formed), in source order
+   (the updater mutex serialises events of one trigger).  What was written to s -- one Write per event --
+   is exactly a prefix of it; the remainder was dropped only after the removal of s ([missed] is empty
+   while s is not removed) or is the single delivery still in flight. *)
+Theorem c12_delivery_order :
+  forall flt wresf ev_bad hbfail acts st s,
+    run fixed flt wresf ev_bad hbfail init acts = Some st ->
+    exists missed inflight,
+      acc ev_bad s (chron st) = writes_of s (chron st) ++ missed ++ inflight /\
+      (s_removed (subs st s) = false -> missed = []) /\
+      length inflight <= 1 /\
+      (cnt (nfa ev_bad s) (threads st) = 0 -> inflight = []) /\
+      Forall (fun e => flt s e = FPass /\ ev_bad e = false) (acc ev_bad s (chron st)).
+Proof. exact final_delivery_order. Qed.
+Print Assumptions c12_delivery_order.
+
+(* the boolean checkers run on the implementation's log are exact *)
+Theorem c12_checkers_exact :
+  (forall l, no_write_after_completed_b l = true <-> no_write_after_completed l) /\
+  (forall l, completed_once_b l = true <-> completed_once l).
+Proof. exact (conj no_write_after_completed_b_ok completed_once_b_ok). Qed.
+Print Assumptions c12_checkers_exact.
+
+(* HISTORICAL (pre-repair code, variant hist_a: complete()/error() do not re-test removed under
+   writeMu): writer.Complete() is called after the completed channel was closed. *)
+Theorem c12_no_write_after_completed_refuted :
+  exists acts st, run hist_a flt0 wres0 bad0 hb0 init acts = Some st /\ ~ no_write_after_completed (chron st).
+Proof. exact no_write_after_completed_refuted_proof. Qed.
+Print Assumptions c12_no_write_after_completed_refuted.
+
+(* the hypotheses are satisfiable by a non-trivial run: two subscribers on one trigger, two events,
+   one subscriber leaves in between *)
+Example c12_example_run :
+  exists st, run fixed flt0 wres0 bad0 hb0 init ex_run = Some st /\
+    threads st = [] /\ writes_of 1 (chron st) = [7] /\ writes_of 2 (chron st) = [7; 8] /\
+    acc bad0 1 (chron st) = [7] /\ acc bad0 2 (chron st) = [7; 8] /\ closes (chron st) = [1; 2].
+Proof. exact example_run_proof. Qed.
